@@ -648,14 +648,22 @@ func (c *Context) Cbrt(d, x *Decimal) (Condition, error) {
 	// Computing the cube root of any number is reduced to computing
 	// the cube root of a number between 0.125 and 1. After the next loops,
 	// x = z * 8^exp8 will hold.
+	// Once a step has failed, ed leaves z untouched, so each loop has to notice
+	// the failure itself or it would never end.
 	for z.Cmp(decimalOneEighth) < 0 {
 		exp8--
 		ed.Mul(&z, &z, decimalEight)
+		if err := ed.Err(); err != nil {
+			return 0, err
+		}
 	}
 
 	for z.Cmp(decimalOne) > 0 {
 		exp8++
 		ed.Mul(&z, &z, decimalOneEighth)
+		if err := ed.Err(); err != nil {
+			return 0, err
+		}
 	}
 
 	// Use this polynomial to approximate the cube root between 0.125 and 1.
